@@ -651,6 +651,50 @@ Proof.
   intros -> H. unfold fill. rewrite skipn_all2 by lia. rewrite app_nil_r. unfold m_set, set_at.
   destruct (Z.ltb_spec (Z.of_nat (length out)) (Z.of_nat (length out))); [lia|]. rewrite andb_false_r. reflexivity.
 Qed.
+(* utf8.EncodeRune(dst[e:], r): the slice behind the written part, the encoder, the write-back *)
+Lemma m_slice_fill_tail (out d0 : list Z) e z : e = Z.of_nat (length out) -> z = Z.of_nat (length d0) -> (length out <= length d0)%nat ->
+  m_slice (fill out d0) e z = Ret (skipn (length out) d0).
+Proof.
+  intros -> -> H. rewrite m_slice_in by (unfold zlen; rewrite ?fill_length by lia; lia). rewrite !Nat2Z.id. unfold fill.
+  rewrite skipn_app, skipn_all, Nat.sub_diag. cbn [skipn app]. rewrite firstn_all2 by (rewrite skipn_length; lia). reflexivity.
+Qed.
+Lemma encode_fill_ok (out d0 : list Z) (r : Z) : (length out + length (Utf8.encode_rune r) <= length d0)%nat ->
+  std_utf8_EncodeRune (skipn (length out) d0) r =
+  Ret (Utf8.encode_rune r ++ skipn (length (Utf8.encode_rune r)) (skipn (length out) d0), zlen (Utf8.encode_rune r)).
+Proof.
+  intros H. unfold std_utf8_EncodeRune. cbv zeta. unfold zlen. rewrite skipn_length.
+  destruct (Z.leb_spec (Z.of_nat (length (Utf8.encode_rune r))) (Z.of_nat (length d0 - length out))); [reflexivity|lia].
+Qed.
+Lemma encode_fill_panic (out d0 : list Z) (r : Z) : (length out <= length d0)%nat -> (length d0 < length out + length (Utf8.encode_rune r))%nat ->
+  std_utf8_EncodeRune (skipn (length out) d0) r = Panic.
+Proof.
+  intros Ho H. unfold std_utf8_EncodeRune. cbv zeta. unfold zlen. rewrite skipn_length.
+  destruct (Z.leb_spec (Z.of_nat (length (Utf8.encode_rune r))) (Z.of_nat (length d0 - length out))); [lia|reflexivity].
+Qed.
+Lemma splice_fill (out d0 : list Z) e z (bs : list Z) : e = Z.of_nat (length out) -> z = Z.of_nat (length d0) -> (length out + length bs <= length d0)%nat ->
+  splice (fill out d0) e z (bs ++ skipn (length bs) (skipn (length out) d0)) = fill (out ++ bs) d0.
+Proof.
+  intros -> -> H. unfold splice, fill. rewrite !Nat2Z.id. rewrite firstn_app, firstn_all, Nat.sub_diag. cbn [firstn]. rewrite app_nil_r.
+  rewrite (skipn_all2 (n := length d0)) by (rewrite app_length, skipn_length; lia). rewrite app_nil_r.
+  rewrite skipn_skipn, app_length, <- !app_assoc. reflexivity.
+Qed.
+Lemma swrap32_rune v : 0 <= v <= 1114111 -> swrap 32 v = v.
+Proof. intros H. unfold swrap. change (2 ^ (32 - 1)) with 2147483648. change (2 ^ 32) with 4294967296. rewrite Z.mod_small by lia. lia. Qed.
+Lemma pu_step_nonneg base maxv n c n1 : pu_step base maxv n c = inl n1 -> 0 <= n1.
+Proof.
+  unfold pu_step. destruct (digit c); [|discriminate]. destruct (base <=? z); [discriminate|]. destruct (cutoff base <=? n); [discriminate|].
+  cbv zeta. destruct (_ || _); [discriminate|]. intros H. injection H as <-. apply Z.mod_pos_bound. reflexivity.
+Qed.
+Lemma pu_nonneg base maxv : 0 <= maxv -> forall ds n j v j' ok, 0 <= n -> pu base maxv n j ds = (v, j', ok) -> 0 <= v.
+Proof.
+  intros Hm. induction ds as [|c t IH]; intros n j v j' ok Hn H.
+  - cbn [pu] in H. injection H as <- _ _. exact Hn.
+  - rewrite pu_cons in H. destruct (pu_step base maxv n c) as [n1|w] eqn:E.
+    + apply (IH n1 (S j) v j' ok); [eapply pu_step_nonneg; exact E|exact H].
+    + injection H as <- _ _. unfold pu_step in E. destruct (digit c); [|injection E as <-; lia].
+      destruct (base <=? z); [injection E as <-; lia|]. destruct (cutoff base <=? n); [injection E as <-; exact Hm|].
+      cbv zeta in E. destruct (_ || _); [injection E as <-; exact Hm|discriminate].
+Qed.
 Lemma m_slice_nat (l : list Z) a b na nb : a = Z.of_nat na -> b = Z.of_nat nb -> (na <= nb <= length l)%nat ->
   m_slice l a b = Ret (firstn (nb - na) (skipn na l)).
 Proof. intros -> -> H. rewrite m_slice_in by (unfold zlen; lia). rewrite !Nat2Z.id. reflexivity. Qed.
@@ -784,18 +828,23 @@ End ParseFuel.
 #[local] Hint Rewrite app_length firstn_length skipn_length repeat_length map_length : lens.
 Ltac fill_side :=
   first [ reflexivity | lia | (cbn [length] in *; lia)
-        | (unfold zlen in *; rewrite ?fill_length in * by lia; autorewrite with lens in *; cbn [length] in *; lia) ].
+        | (unfold zlen in *; rewrite ?fill_length in * by (autorewrite with lens; cbn [length]; lia); autorewrite with lens in *; cbn [length] in *; lia) ].
 (* evaluation of straight-line generated code: the checked operations are rewritten into their values (or into Panic) as
    soon as the hypotheses decide them; otherwise the next comparison (of either side) is split *)
 Ltac parse_eval src :=
   repeat first
     [ progress step_code
     | rewrite wrap8_mod
+    | rewrite swrap32_rune by lia
     | rewrite (slice_some src) by lia
     | erewrite (m_slice_nat src) by (first [reflexivity | unfold zlen; lia])
     | erewrite m_copy_fill by fill_side
     | erewrite m_set_fill by fill_side
     | erewrite m_set_fill_out by fill_side
+    | erewrite m_slice_fill_tail by fill_side
+    | rewrite encode_fill_ok by fill_side
+    | rewrite encode_fill_panic by fill_side
+    | erewrite splice_fill by fill_side
     | (break_if; zb) ].
 Ltac parse_leaf := first [ reflexivity | (exfalso; fill_side) | (repeat f_equal; fill_side) ].
 
@@ -825,8 +874,10 @@ Ltac parse_shape pk c b p K fuel W P prefix base bits maxv emit pfx_tac :=
       rewrite code_parseUint by (rewrite ?firstn_length; lia);
       unfold parse_uint; change (maxval bits) with maxv;
       let v := fresh "v" in let j := fresh "j" in let ok := fresh "ok" in
-      destruct (pu base maxv 0 0%nat (firstn (i + W - (i + P)) (skipn (i + P) src))) as [[v j] ok];
-      cbn [pu_res]; unfold emit, flush, write, copy_into; destruct ok; parse_eval src; parse_leaf
+      let Epu := fresh "Epu" in
+      destruct (pu base maxv 0 0%nat (firstn (i + W - (i + P)) (skipn (i + P) src))) as [[v j] ok] eqn:Epu;
+      pose proof (pu_nonneg base maxv ltac:(lia) _ 0 0%nat _ _ _ ltac:(lia) Epu) as Hvnn; clear Epu;
+      cbn [pu_res]; unfold emit, flush, write, copy_into, MaxRune, RuneSelf; destruct ok; parse_eval src; parse_leaf
     | ];
     assert (Hafter : forall out f i, (length out <= length d0)%nat ->
        K (inl (pk (fill out d0) (Z.of_nat (length out)) (Z.of_nat f) (Z.of_nat i))) = mmap (parse_res d0) (lift (finish (length d0) src f out)));
@@ -862,6 +913,19 @@ Proof.
     change (bind (while fuel c b p s0) K = mmap (parse_res dst) (lift (gparse 4 2 [92; 120] 16 255 byte_emit (length dst) fuel src 0 0 [])));
     first [ solve [parse_shape (fun (D : list Z) (e f i : Z) => (D, e, f, i)) c b p K fuel 4%nat 2%nat [92; 120] 16 8 255 byte_emit ltac:(rewrite pfx_ok_2 by lia)]
           | solve [parse_shape (fun (D : list Z) (e f i : Z) => (D, f, e, i)) c b p K fuel 4%nat 2%nat [92; 120] 16 8 255 byte_emit ltac:(rewrite pfx_ok_2 by lia)] ]
+  end.
+Qed.
+
+Theorem code_UnicodeParse : forall fuel dst src, (length src < fuel)%nat ->
+  g_UnicodeParse fuel dst src = mmap (parse_res dst) (lift (unicode_parse (length dst) src)).
+Proof.
+  intros fuel dst src Hf. unfold g_UnicodeParse. set (K1 := g_parseUint). repeat autounfold with go2v. subst K1. step_code.
+  rewrite unicode_parse_eq. unfold esc_parse.
+  rewrite <- (gparse_fuel 10 2 [92; 85] 16 4294967295 unicode_emit (length dst) src ltac:(lia) ltac:(lia) fuel (S (length src)) 0 0 [] ltac:(lia) ltac:(lia)).
+  match goal with |- match while _ ?c ?b ?p ?s0 with Ret a => @?K a | Panic => Panic | NoFuel => NoFuel end = _ =>
+    change (bind (while fuel c b p s0) K = mmap (parse_res dst) (lift (gparse 10 2 [92; 85] 16 4294967295 unicode_emit (length dst) fuel src 0 0 [])));
+    first [ solve [parse_shape (fun (D : list Z) (e f i : Z) => (D, e, f, i)) c b p K fuel 10%nat 2%nat [92; 85] 16 32 4294967295 unicode_emit ltac:(rewrite pfx_ok_2 by lia)]
+          | solve [parse_shape (fun (D : list Z) (e f i : Z) => (D, f, e, i)) c b p K fuel 10%nat 2%nat [92; 85] 16 32 4294967295 unicode_emit ltac:(rewrite pfx_ok_2 by lia)] ]
   end.
 Qed.
 
